@@ -25,7 +25,7 @@ NA = {
 
 LEVEL_TEXT = {
     "C01": (
-        "Seeded search over the generator's own random choices: every draw of random.*/numpy.random.* made by a generator is owned by the simulator (uniform, adversarial and boundary-value policies per call site, e.g. rand()==0.0 exactly), twin runs use the real seeded RNGs; each returned array is judged by a union-find graph model. Grids include long thin shapes crossing the int8/uint8 coordinate ranges and 16-20-cell sides; arguments are varied in how the caller spells them (shape as narrow-typed array / list / tuple, caller-owned buffers overwritten after the call); a violating run is reported together with the runs that preceded it in its process. Sampling, not proof.",
+        "Seeded search over the generator's own random choices: every draw of random.*/numpy.random.* made by a generator is owned by the simulator (uniform, adversarial and boundary-value policies per call site, e.g. rand()==0.0 exactly), twin runs use the real seeded RNGs; each returned array is judged by a union-find graph model. Grids include long thin shapes crossing the int8/uint8 coordinate ranges and 16-20-cell sides; arguments are varied in how the caller spells them (shape as narrow-typed array / list / tuple or as ONE array the caller rewrites in place for every grid of a batch process, caller-owned buffers overwritten after the call); a violating run is reported together with the runs that preceded it in its process. Sampling, not proof.",
         "Trusted: NumPy array semantics, the SimRNG model of the five intercepted RNG entry points (each value checked to lie in the real API's support; a real-RNG twin runs in every batch).",
     ),
 }
